@@ -261,11 +261,33 @@ def check_iso(chk):
         'microseconds truncated (not rounded) to milliseconds: // 1000': '// 1000' in txt and 'round(' not in txt,
         'three millisecond digits': ':0{3}d' in txt or ':03d' in txt,
     }
+    def wrong_idioms(text, func_node):
+        """positively wrong ways of converting between an instant and local text"""
+        out = []
+        if 'round(' in text:
+            out.append('rounds the sub-millisecond part (round(...)): 12:00:00.9996 becomes the next second / millisecond, so the text denotes another instant than the value')
+        if '.timestamp()' in text or 'fromtimestamp(' in text:
+            out.append('goes through a float POSIX timestamp (timestamp() / fromtimestamp()): a double cannot hold microseconds for years far from 1970, so the millisecond is off by one')
+        for nm in {x.id for x in ast.walk(func_node) if isinstance(x, ast.Name)}:
+            if nm in vmod.assigns and any(k in norm(v) for v in vmod.assigns[nm] for k in ('tzinfo', 'astimezone(', 'timezone(', 'utcoffset')):
+                out.append(f'uses the module-level time zone object {nm}, computed once at import: the offset of another season (DST) or of a later TZ setting is wrong for other instants')
+        if 'utcoffset' in text and 'astimezone' not in text:
+            out.append('applies one UTC offset to every instant instead of the offset in effect at that instant (astimezone())')
+        return out
+    wrong = wrong_idioms(txt, func)
+    if 'isoformat(' in txt and 'astimezone' not in txt:
+        wrong.append('formats the value without attaching the local zone (no astimezone()): the text carries no UTC offset, which the ISO parser pattern requires, and denotes no definite instant')
+    for w in wrong:
+        chk.bad('C16.I', vmod, 'value_string', 'formatter: ' + w[:60], f'the ISO formatter {w}', node=stmts[0])
     for desc, ok in facts.items():
         if ok:
             chk.ok('C16.I', 'formatter ' + desc)
-        else:
-            chk.bad('C16.I', vmod, 'value_string', 'formatter: ' + desc.split(':')[0], f'the ISO formatter no longer {desc}', node=stmts[0])
+        elif not wrong:
+            alt = "timespec='milliseconds'" in txt and '.astimezone()' in txt and 'isoformat(' in txt
+            if alt:
+                chk.ok('C16.I', f"formatter {desc.split(':')[0]} (isoformat(timespec='milliseconds') of the astimezone() value: truncation by the host formatter)")
+            else:
+                chk.unrec('C16.I', f'value_string: formatter feature not recognised: {desc}', vmod.rel)
     # parser
     pf = vmod.func('value_parse_datetime', 'C16.I')
     ptxt = ' ; '.join(norm(s) for s in walk_no_nested(pf) if isinstance(s, (ast.Assign, ast.Return)))
@@ -274,11 +296,19 @@ def check_iso(chk):
         'truncates to whole milliseconds: (microsecond // 1000) * 1000': 'microsecond // 1000 * 1000' in ptxt.replace('(', '').replace(')', ''),
         'date-only text -> local midnight datetime(year, month, day)': 'datetime.datetime(year, month, day)' in ptxt,
     }
-    for desc, ok in pfacts.items():
+    pwrong = wrong_idioms(' ; '.join(norm(s) for s in walk_no_nested(pf) if isinstance(s, ast.stmt)), pf)
+    for w in pwrong:
+        chk.bad('C16.I', vmod, 'value_parse_datetime', 'parser: ' + w[:60], f'the ISO parser {w}', node=pf)
+    alt_local = 'value_normalize_datetime(' in ptxt and 'fromisoformat(' in ptxt
+    alt_trunc = any(k in ptxt.replace('(', '').replace(')', '') for k in ('microsecond - local.microsecond % 1000', 'microsecond % 1000'))
+    alt_date = 'datetime.datetime(year, month, day)' in ' ; '.join(norm(s) for s in walk_no_nested(pf) if isinstance(s, ast.stmt))
+    for (desc, ok), alt in zip(pfacts.items(), (alt_local, alt_trunc, alt_date)):
         if ok:
             chk.ok('C16.I', 'parser ' + desc)
-        else:
-            chk.bad('C16.I', vmod, 'value_parse_datetime', 'parser: ' + desc.split(':')[0], f'the ISO parser no longer {desc}', node=pf)
+        elif alt and not pwrong:
+            chk.ok('C16.I', f'parser {desc.split(":")[0]} (equivalent form)')
+        elif not pwrong:
+            chk.unrec('C16.I', f'value_parse_datetime: parser feature not recognised: {desc}', vmod.rel)
     # language inclusion: formatter output ⊆ parser pattern
     digits = list('0123456789')
     alphabet = digits + ['-', '+', ':', 'T', '.', 'Z', 'x']
